@@ -60,6 +60,11 @@ package ledger
 //   M5 asset.go AssetConfig: `if !params.Clawback.IsZero() {` -> `if true {` (a cleared clawback can be
 //      set again; found by clear clawback + restore roles through the params comparison)
 
+// Independent seeded changes (/verif/seeded): C22-A (the "not zero after closing" check moved
+// between takeOut and putIn, so closing a non-empty holding to the sender itself destroys
+// the units) was MISSED by the first version (close-out only to other accounts) and is
+// DETECTED since the close-to-self / close-with-transfer operations were added; C22-B DETECTED.
+
 import (
 	"errors"
 	"fmt"
